@@ -483,10 +483,16 @@ func c10WebConcurrent(x *xctx) *violation {
 	K := simrt.KGen
 	prof := c10WebProfile(t)
 	ntasks := 2 + t.Choose(K, 3)
+	if c20Enum {
+		ntasks = 2 // systematic enumeration of schedules: two requests
+	}
 	per := make([][]string, ntasks)
 	var all []string
 	for i := range per {
 		n := 1 + t.Choose(K, 2)
+		if c20Enum {
+			n = 1
+		}
 		for j := 0; j < n; j++ {
 			r := genC10WebReq(t, false)
 			per[i] = append(per[i], r)
@@ -496,6 +502,9 @@ func c10WebConcurrent(x *xctx) *violation {
 	cfg := simrt.Config{Strategy: simrt.StratRandom, SwitchT: []int{128, 26, 230}[t.Choose(simrt.KCfg, 3)], PreemptMean: []int{50, 400, 3000, 0}[t.Choose(simrt.KCfg, 4)]}
 	if t.Bool(simrt.KCfg, 25) {
 		cfg = simrt.Config{Strategy: simrt.StratPCT, PCTDepth: 1 + t.Choose(simrt.KCfg, 3), PCTSteps: 3000, PreemptMean: 100}
+	}
+	if c20Enum {
+		cfg = simrt.Config{Strategy: simrt.StratEnum}
 	}
 	resps := make([][]webResp, ntasks)
 	freshProcess(true)
